@@ -172,7 +172,7 @@ def parse_file(path):
                 section = 'loopensures'
             elif d == 'decreases':
                 section = 'decreases'
-            elif d in ('before', 'after', 'at_start', 'loop_end', 'loop_start', 'at_end'):
+            elif d in ('before', 'after', 'at_start', 'loop_end', 'loop_start', 'at_end', 'at_end_before_tail'):
                 m2 = TAG_RE.match(arg)
                 tags, anchor = ([], arg)
                 if m2:
